@@ -988,6 +988,8 @@ class Engine:
                 f = self.func(name)
                 if f.params and re.sub(r"&(?:mut )?", '', norm_type(f.params[0][1])).strip() == segs[0]:
                     out.append(f)
+                elif not f.params and norm_type(f.ret).strip() == segs[0]:
+                    out.append(f)                      # associated function without parameters returning Self (`Opts::new()`)
             return out[0] if len(out) == 1 else None
         exact = [c for c in cands if '<impl at ' not in c and (c == base or c.endswith('::' + base))]
         if len(exact) == 1:
